@@ -15,7 +15,7 @@
 // ops:  n NewRow   q<k> NewRow(copy of detached #k)   e NewRow whose item assignment throws   f<k> NewRow(copy of #k) whose item copy throws   a<k> TryAdd   i<i>,<k> TryInsert
 //       p<i>,<k> TryUpdate(row i := detached #k)   x<i> Extract(i)   z<i> Extract(i, keepRowOrder=false)   r<i> Remove   c Clear
 //       d<k> destroy detached #k   m<k> move-construct + move-assign into the moved-from object   w<k>,<j> #k = move(#j) (old #k dies)
-//       y<k>,<j> swap   s<k> rewrite items   v move the TABLE into another object and back   j<k> Remove(rowFilter)   k copy-construct the table
+//       y<k>,<j> swap   s<k> rewrite items   v move the TABLE into another object and back   j<k> Remove(rowFilter)   g<k> Assign(begin,end)   l<k> Remove(begin,end)   k copy-construct the table
 #include "private_access.h"
 #include "momo/DataTable.h"
 #include <condition_variable>
@@ -332,6 +332,21 @@ static void runSeq(std::istringstream& is, const char* cfgName)
 				for (size_t i = 0; i < table.GetCount(); ++i) if (i % 2 == k % 2) { ev += (gone.empty() ? "" : ",") + S(ids.of(table[i].GetRaw())); gone.insert(table[i].GetRaw()); }
 				size_t removed = table.Remove([&] (typename Table::ConstRowReference ref) { (void)idx; return gone.count(ref.GetRaw()) != 0; });
 				emit(removed == gone.size() ? ev : "Q!");
+			}
+			else if ((c == 'g' || c == 'l') && table.GetCount() > 0)
+			{	// g: Assign(begin, end) keeps every second row, in REVERSED order; l: Remove(begin, end) removes every second row
+				std::vector<typename Table::ConstRowReference> sel; std::string ev = "Q"; bool any = false;
+				for (size_t i = 0; i < table.GetCount(); ++i)
+				{
+					bool pick = (i % 2 == k % 2);
+					if (pick) sel.push_back(table[i]);
+					if (pick == (c == 'l')) { ev += (any ? "," : "") + S(ids.of(table[i].GetRaw())); any = true; }   // the rows that will be destroyed
+				}
+				size_t before = table.GetCount();
+				if (c == 'g') { std::reverse(sel.begin(), sel.end()); table.Assign(sel.begin(), sel.end()); }
+				else table.Remove(sel.begin(), sel.end());
+				bool ok = table.GetCount() == (c == 'g' ? sel.size() : before - sel.size());
+				emit(ok ? ev : "Q!");
 			}
 			else if (c == 'k')
 			{	// table copy construction (pvFill -> pvImportRaw -> pvCreateRaw): the copy has its OWN crew, list head and pool
